@@ -98,6 +98,8 @@ pub struct Report {
     pub failures: Vec<Failure>,
     pub distinct: std::collections::HashSet<u64>,
     pub notes: Vec<String>,
+    /// inputs worth keeping as regression corpus entries (the failing ones), see `corpus.rs`
+    pub corpus_candidates: Vec<String>,
 }
 
 #[derive(Clone, Debug)]
@@ -149,6 +151,9 @@ impl Report {
         println!("STAT distinct_nontrivial {}", self.distinct.len());
         for s in &self.samples {
             println!("SAMPLE {}", s.replace('\n', "\\n").replace('\r', "\\r"));
+        }
+        for c in self.corpus_candidates.iter().take(12) {
+            println!("CORPUS {}", c);
         }
         for n in &self.notes {
             println!("NOTE {}", n.replace('\n', "\\n"));
